@@ -118,21 +118,24 @@ func (a Box2) quad0() Box2 {
 func (a Box2) quad1() Box2 {
 	delta := a.Size().MulScalar(0.5)
 	ll := v2.Vec{a.Min.X + delta.X, a.Min.Y}
-	return Box2{ll, ll.Add(delta)}
+	// share the parent's right edge exactly (ll.X + delta.X can be an ulp off)
+	return Box2{ll, v2.Vec{a.Max.X, ll.Y + delta.Y}}
 }
 
 // quad2 returns the 2nd quadtree box of a box (top-left).
 func (a Box2) quad2() Box2 {
 	delta := a.Size().MulScalar(0.5)
 	ll := v2.Vec{a.Min.X, a.Min.Y + delta.Y}
-	return Box2{ll, ll.Add(delta)}
+	// share the parent's top edge exactly
+	return Box2{ll, v2.Vec{ll.X + delta.X, a.Max.Y}}
 }
 
 // quad3 returns the 3rd quadtree box of a box (top-right).
 func (a Box2) quad3() Box2 {
 	delta := a.Size().MulScalar(0.5)
 	ll := a.Min.Add(delta)
-	return Box2{ll, ll.Add(delta)}
+	// share the parent's top/right edges exactly
+	return Box2{ll, a.Max}
 }
 
 //-----------------------------------------------------------------------------
@@ -266,12 +269,12 @@ func (a *Box2) lineIntersect(l *Line2) *Line2 {
 	u := l[0]
 	v := l[1].Sub(l[0])
 
-	if v.Y == 0 && u.Y == a.Max.Y {
+	if v.Y == 0 && EqualFloat64(u.Y, a.Max.Y, tolerance) {
 		// no solutions on the top box edge
 		return nil
 	}
 
-	if v.X == 0 && u.X == a.Max.X {
+	if v.X == 0 && EqualFloat64(u.X, a.Max.X, tolerance) {
 		// no solutions on the right box edge
 		return nil
 	}
@@ -301,6 +304,12 @@ func (a *Box2) lineIntersect(l *Line2) *Line2 {
 	var pSet []v2.Vec
 	for _, t := range tSet {
 		p := u.Add(v.MulScalar(t))
+		// keep the original end points exact (u + v*1 can be an ulp away from l[1])
+		if t == 0 {
+			p = l[0]
+		} else if t == 1 {
+			p = l[1]
+		}
 		p = a.Snap(p, tolerance)
 		// is the point in the box?
 		if a.Contains(p) {
